@@ -159,3 +159,13 @@ for sname, (d, cfgname, cfgfields, key, tok, res, edb) in TABLE.items():
              body="def %s(x):\n    return %s.deserialize(x.serialize(), None)\n" % (n, cname),
              ensures=[("dmap(result.%s) == dmap(x.%s)" if isinstance(t, TDict) else "result.%s == x.%s") % (f, f) for f, t in comps],
              props=["C03"])
+
+# ---- label-table builders of the other schemes (C06: stored in strictly ascending label order whatever the input order; C05: size)
+for key_, params_ in (("schemes/CJJ14/PiPtr/structures.py:PiPtrEncryptedDatabase.create_dictionary_from_list", dict(kv_pairs=PL)),
+                      ("schemes/CJJ14/Pi2Lev/structures.py:Pi2LevEncryptedDatabase.create_dictionary_from_list", dict(kv_pairs=PL)),
+                      ("schemes/CT14/Pi/structures.py:PiEncryptedDatabase.create_hash_table", dict(cls=TAny, kv_pairs=PL)),
+                      ("schemes/ANSS16/Scheme3/structures.py:PiEncryptedDatabase.create_hash_table", dict(cls=TAny, kv_pairs=PL))):
+    table_builder(key_, params=params_, props=("C06", "C05"))
+    CONTRACTS[key_].no_runtime = True
+    if "cls" in params_:
+        CONTRACTS[key_].param_values = {"cls": ClassRef(key_.rsplit(".", 1)[0])}
